@@ -8,6 +8,53 @@
 mod enc;
 mod run;
 
+/// Counting allocator: live and peak heap bytes of the process (used by the `tailrec` measurement).
+pub mod alloc_count {
+    use std::alloc::{GlobalAlloc, Layout, System};
+    use std::sync::atomic::{AtomicUsize, Ordering::Relaxed};
+    pub static LIVE: AtomicUsize = AtomicUsize::new(0);
+    pub static PEAK: AtomicUsize = AtomicUsize::new(0);
+    pub struct Counting;
+    unsafe impl GlobalAlloc for Counting {
+        unsafe fn alloc(&self, l: Layout) -> *mut u8 {
+            let p = System.alloc(l);
+            if !p.is_null() {
+                let live = LIVE.fetch_add(l.size(), Relaxed) + l.size();
+                PEAK.fetch_max(live, Relaxed);
+            }
+            p
+        }
+        unsafe fn dealloc(&self, p: *mut u8, l: Layout) {
+            LIVE.fetch_sub(l.size(), Relaxed);
+            System.dealloc(p, l)
+        }
+        unsafe fn realloc(&self, p: *mut u8, l: Layout, new: usize) -> *mut u8 {
+            let q = System.realloc(p, l, new);
+            if !q.is_null() {
+                if new >= l.size() {
+                    let live = LIVE.fetch_add(new - l.size(), Relaxed) + (new - l.size());
+                    PEAK.fetch_max(live, Relaxed);
+                } else {
+                    LIVE.fetch_sub(l.size() - new, Relaxed);
+                }
+            }
+            q
+        }
+    }
+    /// start a measurement: peak := live; returns live
+    pub fn reset() -> usize {
+        let live = LIVE.load(Relaxed);
+        PEAK.store(live, Relaxed);
+        live
+    }
+    pub fn peak() -> usize {
+        PEAK.load(Relaxed)
+    }
+}
+
+#[global_allocator]
+static GLOBAL: alloc_count::Counting = alloc_count::Counting;
+
 use serde_json::{json, Value as J};
 use std::io::{BufRead, BufReader, Write};
 use std::process::{Command, Stdio};
@@ -39,6 +86,7 @@ fn worker() {
         let res = std::panic::catch_unwind(|| match vec["mode"].as_str().unwrap_or("run") {
             "record" => record_one(&vec),
             "parse" => run::check_parse(&vec),
+            "tailrec" => run::measure_tail(&vec),
             "reject" => run::check_reject(&vec),
             _ => run::check_vector(&vec),
         });
